@@ -322,6 +322,20 @@ func (c *Client) validateVirtualChannelFundingProposal(
 		return errors.WithMessage(err, "insufficient funds")
 	}
 
+	// Assert that every participant pays exactly its share.
+	if !ch.state().Balances.Sub(virtual).Equal(prop.State.Balances) {
+		return errors.New("invalid balances")
+	}
+
+	// Assert that all other sub-allocations stay as they are.
+	after := prop.State.Clone()
+	if err := after.RemoveSubAlloc(subAlloc); err != nil {
+		return errors.WithMessage(err, "invalid allocation")
+	}
+	if !channel.SubAllocsEqual(ch.state().Locked, after.Locked) {
+		return errors.New("other sub-allocations changed")
+	}
+
 	return nil
 }
 
